@@ -17,7 +17,9 @@ const KINDS: [char; 10] = ['A', 'P', 'S', 'M', 'X', 'B', 'L', 'U', 'H', 'R'];
 const WORK_MS: u64 = 200;
 const BIG_REPLY: usize = 20 << 20;
 const FILL: usize = 30 << 20;
-const MEM_KINDS: [char; 3] = ['A', 'F', 'E'];
+const MEM_KINDS: [char; 4] = ['A', 'F', 'E', 'R'];
+/// nearly the whole limit, but legal on its own: whatever an earlier request left behind in the child is missing here
+const FILL_BIG: usize = 46 << 20;
 const IDLE_KINDS: [char; 4] = ['A', 'W', 'G', 'g'];
 const MARKER: &str = "c18-deliberate-panic";
 
@@ -140,6 +142,8 @@ pub fn seq_main(kinds: &str, gap_ms: u64) -> ! {
                 'M' => Req::Alloc(MEM_LIMIT * 4, tag),
                 // legal: 30 MiB of a 64 MiB limit
                 'F' => Req::Fill(FILL, tag),
+                // legal on its own: 46 MiB of 64 MiB
+                'V' => Req::Fill(FILL_BIG, tag),
                 // holds 40 MiB and asks for 60 MiB with try_reserve: refused or granted, answered either way
                 'E' => Req::Grow(40 << 20, 60 << 20, tag),
                 'X' => Req::Exit(3, tag),
@@ -191,17 +195,17 @@ impl C18 {
         fams.add(&format!("idle gaps: sequences of length {} over normal / slow-but-legal / long idle / short idle (+ a slow and a normal request)", idle_len), vec![4u64.pow(idle_len)]);
         fams.add("long panic reports in a four-byte script at all four byte alignments (+ two normal requests)", vec![4]);
         // requests that use much memory legally, or are refused memory and say so themselves
-        let mem_len = if tier == "thorough" { 4 } else { 3 };
-        fams.add(&format!("memory: sequences of length {} over normal / 30 MiB fill / refused growth (+ a fill and a normal request)", mem_len), vec![3u64.pow(mem_len)]);
+        let mem_len = if tier == "thorough" { 4 } else { 2 };
+        fams.add(&format!("memory: sequences of length {} over normal / 30 MiB fill / refused growth / 20 MiB reply (+ a 46 MiB fill and a normal request)", mem_len), vec![4u64.pow(mem_len)]);
         C18 { fams, lens }
     }
     fn seq(&self, idx: u64) -> (String, u64) {
         let (f, d) = self.fams.locate(idx);
         if f == self.lens.len() + 2 {
-            let l = if self.lens.len() > 2 { 4 } else { 3 };
-            let digits = decode(d[0], &vec![3; l]);
+            let l = if self.lens.len() > 2 { 4 } else { 2 };
+            let digits = decode(d[0], &vec![4; l]);
             let mut s: String = digits.iter().map(|x| MEM_KINDS[*x as usize]).collect();
-            s.push_str("FA");
+            s.push_str("VA");
             return (s, 0);
         }
         if f == self.lens.len() + 1 {
@@ -352,16 +356,17 @@ fn judge(kinds: &str, lines: &[Value]) -> Vec<(String, String)> {
                 }
                 current_pid = Some(pid);
             }
-            'F' | 'E' => {
-                let own = if k == 'F' {
-                    l["value"].as_i64() == Some(tag) && l["len"].as_u64() == Some(FILL as u64) && l["sum"].as_u64() == Some(FILL as u64)
+            'F' | 'E' | 'V' => {
+                let own = if k == 'F' || k == 'V' {
+                    let n = if k == 'F' { FILL } else { FILL_BIG } as u64;
+                    l["value"].as_i64() == Some(tag) && l["len"].as_u64() == Some(n) && l["sum"].as_u64() == Some(n)
                 } else {
                     // refused (-1) or granted (tag): both are the request's own answer
                     l["value"].as_i64() == Some(-1) || l["value"].as_i64() == Some(tag)
                 };
                 if !(res == "ok" && own) {
                     bad.push((
-                        format!("{} after [{}] is not served with its own result", if k == 'F' { "a legal 30 MiB allocation (limit 64 MiB)" } else { "a request that handles a refused allocation itself" }, mem_class(&ks[..i])),
+                        format!("{} after [{}] is not served with its own result", if k == 'F' { "a legal 30 MiB allocation (limit 64 MiB)" } else if k == 'V' { "a legal 46 MiB allocation (limit 64 MiB)" } else { "a request that handles a refused allocation itself" }, mem_class(&ks[..i])),
                         ctx("memory given back by earlier requests - or never granted to them - must be available again"),
                     ));
                     continue;
@@ -442,7 +447,9 @@ fn judge(kinds: &str, lines: &[Value]) -> Vec<(String, String)> {
 }
 
 fn mem_class(prefix: &[char]) -> &'static str {
-    if prefix.contains(&'E') {
+    if prefix.contains(&'R') {
+        "a request with a 20 MiB reply"
+    } else if prefix.contains(&'E') {
         "a refused growth"
     } else if prefix.contains(&'F') {
         "earlier fills"
@@ -478,13 +485,13 @@ impl Space for C18 {
         Meta {
             id: "C18",
             level: "fault_enumeration",
-            rule: format!("every sequence of length <= {} over the ten request kinds {{normal, panic, overrun of the time limit by 10x, overrun by 1.5x (its reply arrives late), allocation beyond the memory limit, child exit, 2 MiB payload, panic with a 12 kB report in a four-byte script (also at each of the four byte alignments), request payload larger than the child's memory limit, small request with a 20 MiB reply}}, each followed by two normal requests, x gap in {{0 ms, 400 ms}} after each fault; plus every sequence over {{normal, slow-but-legal (200 ms), idle 1.5x the limit, idle 0.5x the limit}} followed by a slow and a normal request (idle time between requests must not count against the limit); plus every sequence over {{normal, legal 30 MiB allocation, growth of a 40 MiB buffer to 60 MiB through a fallible call that the 64 MiB limit refuses and the request reports itself}} followed by a 30 MiB allocation and a normal request (memory refused or given back must be available to later requests); run against the real rink_sandbox::Sandbox with real child processes (one parent process per sequence). Oracle: every execute returns within the time limit + 2.5 s; reply i belongs to request i (unique operands / payload checksum); normal and large requests succeed whatever preceded them; panic -> Error::Panic with the marker, overrun -> Timeout, memory/exit -> Crashed; after a fault the next reply comes from another process and the failed child is gone; no process of the group outlives the parent. Non-trivial = the sequence contains a fault followed by a request (all do); distinct by (sequence, gap)", self.lens.last().unwrap()),
+            rule: format!("every sequence of length <= {} over the ten request kinds {{normal, panic, overrun of the time limit by 10x, overrun by 1.5x (its reply arrives late), allocation beyond the memory limit, child exit, 2 MiB payload, panic with a 12 kB report in a four-byte script (also at each of the four byte alignments), request payload larger than the child's memory limit, small request with a 20 MiB reply}}, each followed by two normal requests, x gap in {{0 ms, 400 ms}} after each fault; plus every sequence over {{normal, slow-but-legal (200 ms), idle 1.5x the limit, idle 0.5x the limit}} followed by a slow and a normal request (idle time between requests must not count against the limit); plus every sequence over {{normal, legal 30 MiB allocation, growth of a 40 MiB buffer to 60 MiB through a fallible call that the 64 MiB limit refuses and the request reports itself, small request with a 20 MiB reply}} followed by a 46 MiB allocation and a normal request (memory refused, given back, or used for a reply must be available to later requests); run against the real rink_sandbox::Sandbox with real child processes (one parent process per sequence). Oracle: every execute returns within the time limit + 2.5 s; reply i belongs to request i (unique operands / payload checksum); normal and large requests succeed whatever preceded them; panic -> Error::Panic with the marker, overrun -> Timeout, memory/exit -> Crashed; after a fault the next reply comes from another process and the failed child is gone; no process of the group outlives the parent. Non-trivial = the sequence contains a fault followed by a request (all do); distinct by (sequence, gap)", self.lens.last().unwrap()),
             assumptions: vec![
                 format!("service time limit {} ms (hundreds of times a normal round trip); a sequence whose only anomaly is timing is re-run once alone before being believed", TIMEOUT_MS),
                 "child memory limit 64 MiB, RUST_BACKTRACE=0".into(),
             ],
             exhaustive: true,
-            extra: json!({"families": self.fams.summary(), "request_kinds": {"A": "normal add", "P": "panic", "S": "sleep 10x the limit", "L": "sleep 1.5x the limit (late reply)", "M": "allocate 4x the limit", "X": "exit(3)", "B": "2 MiB payload echo", "U": "panic with a long non-ASCII report", "1/2/3": "the same with 1/2/3 bytes of padding", "H": "80 MiB payload (beyond the child's 64 MiB)", "R": "small request, 20 MiB reply", "W": "sleep 200 ms (legal)", "G": "no request: idle 1.5x the limit", "g": "no request: idle 0.5x the limit", "F": "allocate 30 MiB (legal)", "E": "try_reserve from 40 to 60 MiB (refused by the limit, answered -1)"}}),
+            extra: json!({"families": self.fams.summary(), "request_kinds": {"A": "normal add", "P": "panic", "S": "sleep 10x the limit", "L": "sleep 1.5x the limit (late reply)", "M": "allocate 4x the limit", "X": "exit(3)", "B": "2 MiB payload echo", "U": "panic with a long non-ASCII report", "1/2/3": "the same with 1/2/3 bytes of padding", "H": "80 MiB payload (beyond the child's 64 MiB)", "R": "small request, 20 MiB reply", "W": "sleep 200 ms (legal)", "G": "no request: idle 1.5x the limit", "g": "no request: idle 0.5x the limit", "F": "allocate 30 MiB (legal)", "V": "allocate 46 MiB (legal on its own)", "E": "try_reserve from 40 to 60 MiB (refused by the limit, answered -1)"}}),
         }
     }
     fn len(&self) -> u64 {
